@@ -65,6 +65,79 @@ def gen_match(rng):
     return t, arms
 
 
+def domain(t):
+    """every value of a small scrutinee type (interval of integers, enum); None: not enumerable here (a pool is sampled)"""
+    if t[0] == 10 and t[1] in ([2, "Nat"], [2, "Int"]):
+        lo = t[3] + (1 if t[2] in (1, 3) else 0)
+        hi = t[4] - (1 if t[2] in (2, 3) else 0)
+        if hi - lo < 300:
+            return [[0, z] for z in range(lo, hi + 1)]
+    if t[0] == 3:
+        return [l for l in t[1:]]
+    return None
+
+
+def ival_of_run(rng, a, b):
+    """the integers a..b as an interval type of a random openness"""
+    op = rng.choice([0, 1, 2, 3] if a >= 1 else [0, 2])
+    return nival(op, a - (1 if op in (1, 3) else 0), b + (1 if op in (2, 3) else 0))
+
+
+def runs_of(vals):
+    runs = []
+    for z in sorted(vals):
+        if runs and runs[-1][1] == z - 1:
+            runs[-1][1] = z
+        else:
+            runs.append([z, z])
+    return runs
+
+
+def gen_cover(rng):
+    """systematic family: a small interval (every openness) or enum scrutinee; arms = literals / enums / sub-intervals of every
+    openness, in a random order, that cover the scrutinee completely, or all but one boundary value, or all but one interior value"""
+    if rng.random() < 0.75:
+        op = rng.choice([0, 1, 2, 3])
+        lo = rng.randint(0, 3)
+        nvals = rng.randint(2, 6)
+        first = lo + (1 if op in (1, 3) else 0)
+        last = first + nvals - 1
+        t = nival(op, lo, last + (1 if op in (2, 3) else 0))
+        dom = list(range(first, last + 1))
+    else:
+        dom = sorted(rng.sample(range(0, 10), rng.randint(2, 4)))
+        t = enum(*dom)
+    mode = rng.choice(["full", "full", "no-upper", "no-lower", "no-interior"])
+    cov = list(dom)
+    if mode == "no-upper":
+        cov = dom[:-1]
+    elif mode == "no-lower":
+        cov = dom[1:]
+    elif mode == "no-interior" and len(dom) >= 3:
+        hole = rng.choice(dom[1:-1])
+        cov = [z for z in dom if z != hole]
+    pieces = []
+    for a, b in runs_of(cov):
+        # split a run at a random point now and then
+        if b > a and rng.random() < 0.5:
+            m = rng.randint(a, b - 1)
+            parts = [(a, m), (m + 1, b)]
+        else:
+            parts = [(a, b)]
+        for x, y in parts:
+            style = rng.choice(["lit", "enum", "ival", "ival"])
+            if style == "lit":
+                pieces += [[0, [0, z]] for z in range(x, y + 1)]
+            elif style == "enum":
+                pieces.append([1, enum(*range(x, y + 1))])
+            else:
+                pieces.append([1, ival_of_run(rng, x, y)])
+    rng.shuffle(pieces)
+    if rng.random() < 0.4:
+        pieces.append([1, mono("Str")])     # a last arm of a disjoint class: the test of every other arm is then consulted
+    return t, pieces, mode
+
+
 def program(t, arms, vals):
     lines = ["f x: %s =" % erg(t), "    match x:"]
     for i, a in enumerate(arms):
@@ -119,9 +192,12 @@ def observe(ctx, erg_bin, t, arms, vals, tmp, name):
 
 
 def run(ctx):
-    ctx.cov["rule"] = ("programs `f x: T = match x: arms` with T from 16 scrutinee types (Int Nat Str Bool, enums, intervals, unions), "
-                       "1-5 arms (literal / `_: T` / wildcard) from the seeded PRNG; each accepted program is run on every literal of a "
-                       "pool of 18 values that the model puts in T; non-trivial = accepted match with at least 2 arms")
+    ctx.cov["rule"] = ("(a) systematic family: scrutinee = a small integer interval of every openness (a..b, a<..b, a..<b, a<..<b) or a small "
+                       "enum; arms = literals / enums / sub-intervals of every openness in a random order, covering the scrutinee completely, "
+                       "all but one boundary value or all but one interior value; (b) random programs over 16 scrutinee types (Int Nat Str "
+                       "Bool, enums, intervals, unions) with 1-5 literal / `_: T` / wildcard arms; (c) the corpus. Every ACCEPTED program is "
+                       "run on EVERY value of an enumerable scrutinee type (else on the pool values the model puts in T) and the arm that "
+                       "runs must be one whose pattern contains the value; non-trivial = accepted match with at least 2 arms")
     ctx.cov["trusted_base"] = ["Coq 8.16.1 kernel", "extraction (ExtrOcamlBasic only) + extract/driver.ml", "erg binary built from the working tree",
                                "CPython 3.11 (runs the compiled programs)", "pylib/types_gen.py"]
     ctx.assumptions = ["the sampled values are literals; an integer literal >= 0 is a Nat object at run time",
@@ -131,31 +207,47 @@ def run(ctx):
     proof = ctx.coq(["Types/Props_C33.v"])
     model = ctx.model("Types")
     erg_bin = ctx.erg_bin()
-    n = ctx.scale(40, 600)
     progs = []
     corpus = os.path.join(VERIF, "corpus", "C33")
     if os.path.isdir(corpus):
         for f in sorted(os.listdir(corpus)):
             c = json.load(open(os.path.join(corpus, f)))
             progs.append((c["t"], c["arms"]))
-    seen = set()
-    while len(progs) < n:
-        t, arms = gen_match(ctx.rng)
+    seen = set(json.dumps([t, arms]) for t, arms in progs)
+
+    def add(t, arms):
         key = json.dumps([t, arms])
-        if key in seen:
-            continue
-        seen.add(key)
-        progs.append((t, arms))
-    # model: acceptance, which pool values are in T, which arm runs
-    mres = model.run([[3, to_model(t, ids), [arm_model(a, ids) for a in arms], VALUES] for t, arms in progs])
+        if key not in seen:
+            seen.add(key)
+            progs.append((t, arms))
+            return True
+        return False
+    # the systematic family (small interval / enum scrutinee, covering or almost covering arms)
+    ncov, tries = ctx.scale(110, 2500), 0
+    while ncov > 0 and tries < 20000:
+        tries += 1
+        t, arms, mode = gen_cover(ctx.rng)
+        if add(t, arms):
+            ncov -= 1
+            ctx.count("cover " + mode)
+    nrand = ctx.scale(30, 400)
+    while nrand > 0:
+        t, arms = gen_match(ctx.rng)
+        if add(t, arms):
+            nrand -= 1
+    # the values every program is run on: EVERY value of an enumerable scrutinee type, otherwise the pool
+    pvals = [domain(t) or VALUES for t, arms in progs]
+    # model: acceptance (-1: the union of the pattern types is outside the model), which values are in T, which arm runs
+    mres = model.run([[3, to_model(t, ids), [arm_model(a, ids) for a in arms], vs] for (t, arms), vs in zip(progs, pvals)])
     todo = []
-    for (t, arms), m in zip(progs, mres):
+    for (t, arms), vs, m in zip(progs, pvals, mres):
         if m[0] == -1:
-            ctx.count("union outside the model (skipped)")
-            continue
-        vals = [v for v, d in zip(VALUES, m[1]) if d == 1]
-        sel = [s for s, d in zip(m[2], m[1]) if d == 1]
-        todo.append((t, arms, vals, sel, m[0]))
+            ctx.count("union outside the model (acceptance not compared, run time judged)")
+        vals = [v for v, d in zip(vs, m[1]) if d == 1]
+        sel = [x for x, d in zip(m[2], m[1]) if d == 1]
+        if len(vals) < len(vs) and domain(t) is not None:
+            ctx.notes.append("model: %d enumerated values of %s are not in its reading" % (len(vs) - len(vals), erg(t)))
+        todo.append((t, arms, vals, sel, None if m[0] == -1 else m[0]))
     tmp = tempfile.mkdtemp(prefix="c33-", dir=os.path.join(CACHE, "tmp") if os.path.isdir(os.path.join(CACHE, "tmp")) else None)
     with ThreadPoolExecutor(max_workers=16) as ex:
         obs = list(ex.map(lambda iq: observe(ctx, erg_bin, iq[1][0], iq[1][1], iq[1][2], tmp, "m%d" % iq[0]), enumerate(todo)))
@@ -172,7 +264,8 @@ def run(ctx):
             continue
         ctx.case([t, arms], nontrivial=(o["accepted"] and len(arms) >= 2), sample={"program": src} if o["accepted"] else None)
         ctx.count("accepted" if o["accepted"] else "rejected")
-        if o["accepted"] != bool(macc):
+        if macc is not None and o["accepted"] != bool(macc):
+            ctx.count("erg accepts what the model rejects" if o["accepted"] else "erg rejects what the model accepts")
             corr.append({"t": t, "arms": arms, "program": src, "impl_accepts": o["accepted"], "model_accepts": bool(macc)})
         if o["accepted"]:
             ovals = o["vals"]
